@@ -12,6 +12,9 @@ def check(ctx):
         "future/stream/sink adapters release the local-parent guard before finishing their span (C13-R3/C14-R3); R6 the "
         "receiver drain loops until try_recv reports an empty (or closed) channel, forwarding every command; R7 the "
         "per-item fan-out of a shared span set leaves only by exhaustion; R8 Config::cancelable(x) sets cancelable to x.")
+    ctx.explanation += (" R12 the delivery bundle: queues drained to their end with the registry filtered in place, closed = closed and empty, "
+                        "stale sets kept unless cancelable, shared sets fanned out to every parent, one sampling filter at the choke point, a scope "
+                        "records iff any parent is sampled, setting a local parent opens a scope, no-op only without a recording parent.")
     ctx.not_decided = ("inclusion of a child that finished on another thread before the root: receivers are drained "
                        "one after another, so the child's submit can be read one cycle after the root's commit "
                        "(limitation L1 of DESIGN.md; no code shape distinguishes the schedules).")
@@ -47,3 +50,6 @@ def check(ctx):
     ctx.floor("R5", "adapters", n, 3, "adapter methods that finish a span")
     adapters.rule_drop_order(ctx, facts, "R5", "fastrace::future::InSpan")
     adapters.rule_drop_order(ctx, facts, "R5", "fastrace_futures::InSpan")
+    # what delivery as such needs (see props/common.py)
+    from .common import delivery_bundle
+    delivery_bundle(ctx, ctx.facts("E"), "R12")
